@@ -455,13 +455,29 @@ class World:
             seen.add(key)
             self.by_last.setdefault(it.last, []).append(it)
         self._src = {}
+        self._txt = {}
         self._hdr = {}
         self.crate_dirs = []
         self.extra_src_dirs = []     # source dirs searched for type declarations only (no MIR)
 
+    def snapshot_sources(self):
+        """Read every source file of the crates of this world now (right after the MIR dump), so that impl
+        headers / struct declarations are taken from the same tree state as the MIR even if files change later."""
+        for d in self.crate_dirs + self.extra_src_dirs:
+            for root, _, files in os.walk(os.path.join(self.repo, d)):
+                for f in files:
+                    if f.endswith(".rs"):
+                        p = os.path.join(root, f)
+                        self._txt[os.path.relpath(p, self.repo)] = open(p).read()
+
+    def read(self, rel):
+        if rel not in self._txt:
+            self._txt[rel] = open(os.path.join(self.repo, rel)).read()
+        return self._txt[rel]
+
     def src_lines(self, rel):
         if rel not in self._src:
-            self._src[rel] = open(os.path.join(self.repo, rel)).read().split("\n")
+            self._src[rel] = self.read(rel).split("\n")
         return self._src[rel]
 
     def impl_header(self, it):
@@ -483,7 +499,7 @@ class World:
     def check_assoc_types(self, crate_src_file):
         """The projection table in normalize() (`<u64 as Unsigned>::Signed = i64` ...) is checked
         against the source on every run."""
-        txt = open(os.path.join(self.repo, crate_src_file)).read()
+        txt = self.read(crate_src_file)
         for u, s in (("u64", "i64"), ("u128", "i128")):
             if not re.search(rf"impl Unsigned for {u} \{{\s*type Signed = {s};", txt):
                 raise Unsupported(f"source no longer says `impl Unsigned for {u} {{ type Signed = {s}; }}`")
@@ -492,7 +508,7 @@ class World:
 
     def struct_fields(self, rel, name):
         """Field names of `struct name` in declaration order, read from the source file `rel`."""
-        txt = open(os.path.join(self.repo, rel)).read()
+        txt = self.read(rel)
         m = re.search(rf"\bstruct {re.escape(name)}\b[^{{;]*\{{", txt)
         if not m:
             raise Unsupported(f"struct {name} not found in {rel}")
@@ -512,7 +528,7 @@ class World:
         """Byte layout {field: (offset, size)} and total size of a `#[zero_copy]` (repr(C), Pod: no implicit
         padding) struct whose fields are primitive integers or arrays of them, read from the source;
         array lengths may use `const NAME: usize = <int>;` of the same file and `NAME + <int>`."""
-        txt = open(os.path.join(self.repo, rel)).read()
+        txt = self.read(rel)
         m = re.search(rf"\bstruct {re.escape(name)}\b[^{{;]*\{{", txt)
         if not m:
             raise Unsupported(f"struct {name} not found in {rel}")
@@ -562,7 +578,7 @@ class World:
             for root, _, files in os.walk(os.path.join(self.repo, d)):
                 for f in files:
                     if f.endswith(".rs"):
-                        txt = open(os.path.join(root, f)).read()
+                        txt = self.read(os.path.relpath(os.path.join(root, f), self.repo))
                         for m in re.finditer(rf"\benum {re.escape(name)}\s*\{{", txt):
                             j = match_close(txt, m.end() - 1)
                             found.append(txt[m.end():j])
@@ -718,7 +734,7 @@ class World:
             for root, _, files in os.walk(os.path.join(self.repo, crate_dir)):
                 for f in files:
                     if f.endswith(".rs"):
-                        txt = open(os.path.join(root, f)).read()
+                        txt = self.read(os.path.relpath(os.path.join(root, f), self.repo))
                         for m in re.finditer(rf"\bfn {re.escape(name)}\s*<", txt):
                             j = match_close(txt, m.end() - 1)
                             found.append(parse_generics(txt[m.end():j]))
@@ -827,6 +843,10 @@ class Exec:
             return a // b, a % b
         if self.div_mode == "native":
             return f"(div {smt(a)} {smt(b)})", f"(mod {smt(a)} {smt(b)})"
+        if is_c(b) and b > 0 and isinstance(a, str):
+            folded = self.fold_div_const(a, b)
+            if folded is not None:
+                return folded
         q = self.fresh(hint + "_q")
         r = self.fresh(hint + "_r")
         an = self.name_term(a, hint + "_n")
@@ -843,6 +863,46 @@ class Exec:
             set_bound(q, alo // b, ahi // b if ahi is not None else None)
             set_bound(r, 0, b - 1)
         return q, r
+
+    @staticmethod
+    def fold_div_const(a, b):
+        """a = k*b + (x1*b) + ... + r with 0 <= r < b known by interval bounds  ->  (k + x1 + ..., r), exactly."""
+        def addends(t):
+            m = re.match(r"^\(\+ (.*)\)$", t) if isinstance(t, str) else None
+            if not m:
+                return [t]
+            parts, depth, cur = [], 0, ""
+            for ch in m.group(1):
+                if ch == " " and depth == 0:
+                    parts.append(cur)
+                    cur = ""
+                    continue
+                depth += ch == "("
+                depth -= ch == ")"
+                cur += ch
+            parts.append(cur)
+            if len(parts) != 2:
+                return [t]
+            out = []
+            for p in parts:
+                out += addends(int(p) if re.fullmatch(r"-?\d+", p) else p)
+            return out
+        q, r = 0, None
+        for x in addends(a):
+            if isinstance(x, int):
+                if x % b or x < 0:
+                    return None
+                q = t_add(q, x // b)
+                continue
+            m = re.match(rf"^\(\* (\S+) {b}\)$|^\(\* {b} (\S+)\)$", x)
+            lo, hi = bnd(x)
+            if m and bnd(m.group(1) or m.group(2))[0] is not None and bnd(m.group(1) or m.group(2))[0] >= 0:
+                q = t_add(q, m.group(1) or m.group(2))
+            elif r is None and lo is not None and hi is not None and 0 <= lo and hi < b:
+                r = x
+            else:
+                return None
+        return (q, r if r is not None else 0)
 
     def sdivrem(self, a, b, hint="sq"):
         """Rust signed `/` and `%`: truncation toward zero."""
@@ -1357,6 +1417,9 @@ class Exec:
             tlo, thi = int_range(ty)
             if tlo <= slo and shi <= thi:
                 return I(v.t, ty)
+            vlo, vhi = bnd(v.t)
+            if vlo is not None and vhi is not None and tlo <= vlo and vhi <= thi:
+                return I(v.t, ty)          # the value's known interval fits the target type: no wrap
             return I(self.name_term(self.wrap(v.t, ty), "cast"), ty)
         if kind == "PointerCoercion" and "Unsize" in rv:
             return v
